@@ -137,11 +137,25 @@ def fmtTimer (w : World) (tid : Nat) (t : Timer) : String :=
 def stateLetter : PState → String
   | .idle => "I" | .connecting => "G" | .connected => "C"
 
+/-- the factory's containers, address by address, in container order: what `queuePublishTx`, `windowPublish`, `windowPubRelease`,
+    `windowSubscribe`, `windowUnsubscribe` and `windowPubRx` hold (identifier / QoS / alarm set), for the state correspondence -/
+def fmtStore (w : World) : String :=
+  let addrs := ((w.ents.map Ent.addr) ++ (w.rx.map RxEnt.addr)).eraseDups.mergeSort (· ≤ ·)
+  let item (full : Bool) (e : Ent) : String :=
+    let r := w.req e.rid
+    let armed := if r.alarm.isSome then 1 else 0
+    if full then s!"{r.msgId}/{r.qos}/{armed}" else s!"{e.key}/{armed}"
+  let box (a : Nat) (b : Box) (full : Bool) : String := ",".intercalate ((Ents.items w.ents a b).map (item full))
+  "store " ++ " ".intercalate (addrs.map fun a =>
+    s!"a{a}:q={box a .queue true};pub={box a .pub true};rel={box a .rel false};sub={box a .sub false};unsub={box a .unsub false};rx=" ++
+      ",".intercalate ((w.rx.filter fun x => x.addr == a).map fun x => toString x.key))
+
 def trailer (w : World) : List String :=
   let pend := w.timers.filter fun (_, t) => t.status == .pending
   [s!"now {w.now}",
    "states " ++ String.join (w.protos.map fun (_, p) => stateLetter p.state),
-   "timers " ++ " ".intercalate (pend.map fun (tid, t) => fmtTimer w tid t)]
+   "timers " ++ " ".intercalate (pend.map fun (tid, t) => fmtTimer w tid t),
+   fmtStore w]
 
 partial def loop (h : IO.FS.Stream) (out : IO.FS.Stream) (w : World) : IO Unit := do
   let line ← h.getLine
